@@ -88,8 +88,8 @@ Section Shape.
                           | Some (SBool _) => has vid DJsonValue
                           | Some sa => sh sa vid
                           end
-      | KVec => exists i, has t (DVec i) /\ match items with [it] => sh it i | _ => False end
-      | KVecAny => exists i, has t (DVec i) /\ has i DJsonValue
+      | KVec c => exists i, has t (seq_det c i) /\ match items with [it] => sh it i | _ => False end
+      | KVecAny c => exists i, has t (seq_det c i) /\ has i DJsonValue
       | KRef r => ref_id D r = Some t /\ exists d, has t d /\ det_name d <> None
       | KAny => has t DJsonValue
       end.
@@ -127,7 +127,7 @@ Section Ok.
     | DStruct _ _ ps _ => RoundTrip.props_ok ps = true /\ forall p, In p ps -> idok look (p_ty p)
     | DEnum _ _ TagExternal vs _ _ => forall v, In v vs -> v_det v = VSimple
     | DOption t => idok look t /\ forall e, look t = Some e -> not_option e
-    | DVec t => idok look t
+    | DVec t | DSet t | DArray t _ => idok look t
     | DMap k v => (exists e, look k = Some e /\ e_det e = DString) /\ idok look v
     | DNewtype _ _ t c => match c with CNone | CString _ _ _ => idok look t | _ => False end
     | DUnit | DBoolean | DInteger _ | DFloat _ | DString | DJsonValue => True
@@ -158,7 +158,7 @@ Section Ok.
     det_ok look d -> det_ok look' d.
   Proof.
     intros Hm Hdef.
-    destruct d as [? ? tag ? ? ?|? ? ? ?|? ? t c|? ? ?|t|?|t|? ?|?|? ?|?| | |?|?| | |?];
+    destruct d as [? ? tag ? ? ?|? ? ? ?|? ? t c|? ? ?|t|?|t|? ?|t|t ?|?| | |?|?| | |?];
       cbn [det_ok]; try exact (fun H => H).
     - intros [H1 H2]. split; [exact H1|]. intros p Hp. eapply idok_mono; [exact Hm|apply H2; exact Hp].
     - destruct c; try exact (fun H => H); apply idok_mono; exact Hm.
@@ -169,6 +169,8 @@ Section Ok.
     - apply idok_mono. exact Hm.
     - intros [(e & He & Hd) H2]. split; [exists e; split; [apply Hm; exact He|exact Hd]|].
       eapply idok_mono; eassumption.
+    - apply idok_mono. exact Hm.
+    - apply idok_mono. exact Hm.
   Qed.
 
   Lemma te_ok_mono look look' d :
@@ -500,7 +502,7 @@ Section ShapeMain.
     KSPost items props req ap k nm' s0 te s1.
   Proof.
     intros Hc Hw Hnx Hg Hnd Hfr.
-    destruct k as [| | | |mx mn pat|r|raws|deny| | | |r|]; cbn [conv_kind] in Hc.
+    destruct k as [| | | |mx mn pat|r|raws|deny| |c|c|r|]; cbn [conv_kind] in Hc.
     - injection Hc as <- <-. apply scalar_kspost; try reflexivity; try assumption; try exact I. intros T t H; exact H.
     - injection Hc as <- <-. apply scalar_kspost; try reflexivity; try assumption; try exact I. intros T t H; exact H.
     - injection Hc as <- <-. apply scalar_kspost; try reflexivity; try assumption; try exact I. intros T t H; exact H.
@@ -596,22 +598,22 @@ Section ShapeMain.
         * intros T He Hp. exact (get_det_of _ _ _ _ (He _ _ Hl3)).
     - (* KVec *)
       destruct items as [|it [|it2 items']]; try discriminate.
-      destruct (cvf it (item_name cls nm') s0) as [[tei s2]|] eqn:Hcv; [|discriminate].
+      destruct (cvf it (seq_item_name cls c nm') s0) as [[tei s2]|] eqn:Hcv; [|discriminate].
       destruct (assign tei s2) as [iid s3] eqn:Hav. injection Hc as <- <-.
       cbn [frag_kind forallb] in Hfk. rewrite andb_true_r in Hfk.
       pose proof (Forall_inv IHitems) as HPit.
       cbn [own_names sub_names app flat_map] in Hnd, Hfr. rewrite app_nil_r in Hnd, Hfr.
       destruct (SP_assign _ HPit Hfk _ _ _ _ _ _ Hcv Hav Hw Hnx Hg Hnd Hfr) as [Hw3 Hf3 Hns3 Hg3 Hid3 HS3].
-      split; [exact Hw3|exact Hf3|reflexivity| |exact Hg3|exact Hid3|exact I|].
+      split; [exact Hw3|exact Hf3|destruct c; reflexivity| |exact Hg3|destruct c; exact Hid3|destruct c; exact I|].
       + cbn [sub_names flat_map]. rewrite app_nil_r. exact Hns3.
-      + intros T He Hp t Hr. cbn [realizes] in Hr. apply get_det_of in Hr. cbn [kshape].
-        exists iid. split; [exact Hr|exact (HS3 T He Hp)].
+      + intros T He Hp t Hr. cbn [kshape]. exists iid. split; [|exact (HS3 T He Hp)].
+        destruct c; cbn [realizes seq_det] in Hr; exact (get_det_of _ _ _ _ Hr).
     - (* KVecAny *)
       destruct (assign DJsonValue (set_json s0)) as [iid s3] eqn:Hav. injection Hc as <- <-.
       destruct (json_assigned s0 iid s3 Hav Hw Hnx Hg) as (Hw3 & Hf3 & Hns3 & Hg3 & Hid3 & Hl3).
-      split; [exact Hw3|exact Hf3|reflexivity|exact Hns3|exact Hg3|exact Hid3|exact I|].
-      intros T He Hp t Hr. cbn [realizes] in Hr. apply get_det_of in Hr. cbn [kshape].
-      exists iid. split; [exact Hr|exact (get_det_of _ _ _ _ (He _ _ Hl3))].
+      split; [exact Hw3|exact Hf3|destruct c; reflexivity|exact Hns3|exact Hg3|destruct c; exact Hid3|destruct c; exact I|].
+      intros T He Hp t Hr. cbn [kshape]. exists iid. split; [|exact (get_det_of _ _ _ _ (He _ _ Hl3))].
+      destruct c; cbn [realizes seq_det] in Hr; exact (get_det_of _ _ _ _ Hr).
     - (* KRef *)
       destruct (ref_id D r) as [i|] eqn:Hri; [|discriminate]. injection Hc as <- <-.
       destruct (ref_id_range D r i Hri) as [Hr1 Hr2].
